@@ -148,6 +148,12 @@ def interpolation(h):
     absdw = z3.If(dw >= 0, dw, -dw)
     impossible = z3.Or(z3.And(dw != 0, absnum > absdw), z3.And(dw == 0, num_ != 0))
     succ = z3.And(i >= 0, i + 1 <= n - 1)
-    h.ensures("accepted_history_has_no_impossible_batch", z3.Implies(succ, z3.Not(impossible)))
+    def hist_rp(ev):
+        nn = int(ev(n) or 1)
+        nn = max(1, min(nn, 12))
+        col = lambda c: [float(ev(f_(c, z3.IntVal(j))) or 0) for j in range(nn)]  # noqa: E731
+        return {"target": "verif_replays:version_history_replay", "args": [col("results_dem"), col("results_gop")], "kwargs": {"turnout": col("results_turnout"), "weights": col("results_weights"), "pev": col("percent_expected_vote"), "margin": col("results_normalized_margin")}, "check": "result['exc'] is None and result['ok']"}
+
+    h.ensures("accepted_history_has_no_impossible_batch", z3.Implies(succ, z3.Not(impossible)), replay=hist_rp)
     rt_last = f_("results_turnout", n - 1)
-    h.ensures("accepted_history_has_non_decreasing_turnout", z3.Implies(z3.And(succ, rt_last > 0), f_("results_turnout", i) <= f_("results_turnout", i + 1)))
+    h.ensures("accepted_history_has_non_decreasing_turnout", z3.Implies(z3.And(succ, rt_last > 0), f_("results_turnout", i) <= f_("results_turnout", i + 1)), replay=hist_rp)
